@@ -135,6 +135,23 @@ def r01_1(ctx: Ctx, rule: str = "R01.1", decoder_only: bool = False) -> None:
             cc = ctx.prog.cls(ent[0].name, "compressor")
             ok = ctx.prog.method(cc, "compress") is not None and ctx.prog.method(cc, "flush") is not None
             ctx.check(ok, rule, cc.name, None, f"{cc.name} has compress and flush", f"{cc.name} lacks compress() or flush()", construct=f"{cc.name} interface")
+    # native coders: properties are encoded exactly for the native methods that need them
+    gc = ctx.prog.func("compressor", "SupportedMethods.get_coder")
+    native_need = {m["filter_id"] for m in methods if m["native"] and m["need_prop"]}
+    enc = [c for c in q.calls(gc) if attr_tail(c) == "_encode_filter_properties"]
+    got: Set[int] = set()
+    recognised = False
+    for c in enc:
+        for cd, pol in q.facts_at(gc, c):
+            if pol and isinstance(cd, ast.Compare) and isinstance(cd.ops[0], ast.In):
+                try:
+                    got |= set(ctx.ce.eval(cd.comparators[0], "compressor"))
+                    recognised = True
+                except (NotConst, TypeError):
+                    pass
+    ctx.check(recognised and got == native_need, rule, gc, enc[0] if enc else gc.node, "native coders: properties encoded for exactly the methods that need them",
+              f"get_coder encodes filter properties for {sorted(got) if recognised else 'a condition that is not a constant id list'} but the method table says {sorted(native_need)} need them: "
+              "e.g. a Delta filter written without its distance is decoded with distance 1", construct="get_coder property set")
     # the coder record of an alternative coder names the method id of the same filter
     ok = any(isinstance(c, ast.Call) and attr_tail(c) == "get_method_id" and c.args and norm(c.args[0]) == "filter_id" for c in q.calls(sac))
     ctx.check(ok, rule, sac, sac.node, "coder record carries the method id of the filter used", "the coder record is not built from get_method_id(filter_id)", construct="coder method id")
@@ -243,6 +260,18 @@ def r01_2(ctx: Ctx) -> None:
                 ok = bool(meas) and all(acfg.dominates(q.node_for(a, meas[0]), q.node_for(a, c)) for c in adds)
         ctx.check(ok, "R01.2", a, slices[0] if slices else a.node, f"{qual}: head/tail slices are complementary at cut - buffered",
                   f"{qual}: the processed head {sorted(heads)} and the retained tail {sorted(tails)} of the data are not complementary slices at (cut - buffered length)", construct=f"{qual} slices")
+        # a direct len(self.buf) inside a slice bound must be evaluated before the buffer is modified in that call
+        acfg0 = cfg_of(a.node)
+        muts = [c for c in q.calls(a) if attr_tail(c) in ("add", "set", "reset") and norm(c.func.value) == "self.buf"]
+        for s_ in slices:
+            direct = [x for x in ast.walk(s_.slice) if isinstance(x, ast.Call) and dotted(x.func) == "len" and x.args and norm(x.args[0]) == "self.buf"]
+            if not direct:
+                continue
+            sn_ = q.node_for(a, s_)
+            stale = [m for m in muts if q.node_for(a, m) is not sn_ and acfg0.reaches(q.node_for(a, m), sn_) and not acfg0.reaches(sn_, q.node_for(a, m))] + \
+                    [m for m in muts if q.node_for(a, m) is not sn_ and acfg0.dominates(q.node_for(a, m), sn_)]
+            ctx.check(not stale, "R01.2", a, s_, f"{qual}: slice bound uses the buffered length measured before the buffer changes",
+                      f"{qual}: the slice bound `{norm(s_.slice)}` reads len(self.buf) after the buffer was already modified ({norm(stale[0]) if stale else ''}): head and tail no longer partition the data")
         # head goes to the cipher through the buffer, tail is retained with set()
         ok = any(attr_tail(c) == "add" and c.args and isinstance(c.args[0], ast.Subscript) and c.args[0].slice.lower is None for c in q.calls(a)) and \
             any(attr_tail(c) == "set" for c in q.calls(a))
@@ -285,7 +314,31 @@ def wr_stmt(post: List[ast.stmt], call: ast.Call) -> ast.stmt:
     raise AnalysisError("write statement not found")
 
 
+def r01_6(ctx: Ctx) -> None:
+    """names given to writestr/writef are stored as given (validated, never rewritten)."""
+    chain = [("writestr", "_writestr"), ("_writestr", "_writef"), ("writef", "_writef"), ("_writef", "_make_file_info_from_name")]
+    for caller, callee in chain:
+        f = shared.szf(ctx, caller)
+        pname = "arcname"
+        ctx.need(pname in f.params, f"{caller} has no arcname parameter")
+        reassigned = [n for n in walk(f.node) if isinstance(n, (ast.Assign, ast.AugAssign)) and any(
+            isinstance(t, ast.Name) and t.id == pname for t in (n.targets if isinstance(n, ast.Assign) else [n.target]))]
+        calls = [c for c in q.calls(f) if attr_tail(c) == callee]
+        ctx.floor("R01.6", len(calls), 1, f"{callee} call in {caller}")
+        for c in calls:
+            passed = [a for a in list(c.args) + [k.value for k in c.keywords] if isinstance(a, ast.Name) and a.id == pname]
+            ctx.check(bool(passed) and not reassigned, "R01.6", f, c, f"{caller} hands the name on unchanged",
+                      f"{caller} rewrites the member name before storing it ({norm(reassigned[0]) if reassigned else 'name not passed on'}): the archive lists a different name than the one written "
+                      "(e.g. a drive-like prefix 'c:' is stripped and two members collide)")
+    mk = shared.szf(ctx, "_make_file_info_from_name")
+    st = [n for n in walk(mk.node) if isinstance(n, ast.Assign) and isinstance(n.targets[0], ast.Subscript) and isinstance(n.targets[0].slice, ast.Constant) and n.targets[0].slice.value == "filename"]
+    ok = len(st) == 1 and norm(st[0].value) in ("pathlib.Path(arcname).as_posix()", "arcname")
+    ctx.check(ok, "R01.6", mk, st[0] if st else mk.node, "stored name = pathlib-normalised POSIX form of the given name", "the stored name is not pathlib.Path(arcname).as_posix()")
+
+
 def run(ctx: Ctx) -> None:
+    r01_6(ctx)
+    shared.strict_reads(ctx, "R01.7")
     r01_1(ctx)
     r01_2(ctx)
     from . import c07, c06
